@@ -13,7 +13,7 @@ EXPLANATION = ("(1) QPACK static table == RFC 9204 Appendix A (99 rows, one shar
                "stream_session.session_id() (= id of the CONNECT stream); (6) SessionRequest::new builds exactly the five pseudo-headers with "
                ":authority == url.authority() and :path == url.path() ++ ('?' ++ query)? (string algebra, any spelling), and Headers::insert / get store and "
                "look up names and values unchanged."
-               ' Also: StaticTable::lookup_index compares names and values by exact equality only (an indexed field line is value-preserving); the request stream is never dropped with a cancelled worker branch (C02-R7).')
+               ' Also: StaticTable::lookup_index compares names and values by exact equality only (an indexed field line is value-preserving); the request stream is never dropped with a cancelled worker branch (C02-R7). C02-R8: the HEADERS frame is put on the wire whole whatever credit the peer grants: every write_frame layer awaits the layer below on the given frame, Frame::write_async emits [kind, len, payload] through PutVarint/PutBuffer, whose poll loops re-issue poll_write on the unwritten rest until the field is complete.')
 NOT_DECIDED = ["decode(encode(h)) == h for arbitrary strings (Huffman coder is an external crate; value-level law)", "URL parsing (url crate)"]
 TRUSTED = ["rustc MIR / const evaluation", "spec/qpack_static.json", "url::Url accessors"]
 
@@ -104,3 +104,18 @@ def run(ctx):
             arg = canon(ev[2][2])
         ctx.check("C02-R5", "Connection::new@%s" % fn2.path.split("::")[-2], re.match(r"^<impl .*Session>>>::session_id\(", arg) is not None, "%s: session id argument is %s" % (fn2.path, arg[:100]), ev[4], key="Connection::new@%s" % fn2.path)
     ctx.floor("C02-R5", "Connection::new call sites", len(sites), 2)
+
+    ctx.rule("C02-R8", "the request / response HEADERS frame reaches the wire whole at any flow-control credit: write_frame -> Frame::write_async -> [kind, len, payload] through the looping Put* primitives")
+    shared.preamble_writers(ctx, "C02-R8")
+    shared.poll_loops(ctx, "C02-R8")
+    n = 0
+    for g in A.fn_list:
+        if not g.body or not re.search(r"wtransport_proto::stream::types::(Session|H3)>>>?::write_frame(_async)?::\{closure#0\}$", g.path):
+            continue
+        n += 1
+        ps = nonpanic(walk(g))
+        okp = [p for p in ps if re.match(r"^return (Result::Ok\(|await\()", path_sig(p)[1])]
+        inner = r"Frame::write_async\(frame,writer\)" if g.path.startswith("wtransport_proto::") else r"<impl Stream<\w+, \w+>>::write_frame_async\(self\.proto,frame,self\.stream(\.0)?\)"
+        ctx.check("C02-R8", "write_frame writes the given frame through the layer below", bool(okp) and all(any(re.match(r"^await %s$" % inner, e) for e in event_strs(p)) for p in okp),
+                  "%s returns without awaiting %s on the caller's frame" % (g.path, inner), where(g), key="write_frame|%s" % re.sub(r"wtransport(_proto)?::", "", g.path))
+    ctx.floor("C02-R8", "write_frame layers", n, 5)
